@@ -87,7 +87,7 @@ QUICK = [
     cfg(1, 2, True, False, 40, 4),
     cfg(0, 3, True, False, 8),
     cfg(1, 1, True, True, 4),      # 21
-    cfg(0, 2, True, True, 4),      # 40
+    cfg(0, 2, True, True, 3),      # 18
     cfg(4, 0, False, True, 0),     # 8
     cfg(2, 1, False, False, 40),   # 13
     cfg(1, 1, False, False, 40),   # 15
@@ -116,10 +116,9 @@ def _thorough():
     t += [(cfg(0, 5, H, S, 4, 2), 171), (cfg(0, 5, H, S, 4, 3), 30), (cfg(0, 5, H, S, 4, 4), 20)]
     t += [(cfg(0, 6, H, S, 2, 2), 22), (cfg(0, 6, H, S, 2, 3), 12), (cfg(0, 6, H, S, 2, 4), 10)]
     t += [(cfg(1, 1, F, S, 40), 15), (cfg(1, 1, H, S, 40), 15), (cfg(2, 1, F, S, 40), 13), (cfg(2, 1, H, S, 40), 13)]
-    t += [(cfg(1, 2, F, S, 40), 64), (cfg(1, 2, H, S, 40, 2), 30), (cfg(1, 2, H, S, 40, 3), 20), (cfg(1, 2, H, S, 40, 4), 15)]
+    t += [(cfg(1, 2, H, S, 40, 2), 30), (cfg(1, 2, H, S, 40, 3), 20), (cfg(1, 2, H, S, 40, 4), 15)]
     t += [(cfg(1, 3, H, S, 8, 2), 150), (cfg(1, 3, H, S, 8, 3), 30), (cfg(1, 3, H, S, 8, 4), 20)]
     t += [(cfg(2, 2, F, S, 40), 60), (cfg(2, 2, H, S, 40), 60)]
-    t += [(cfg(2, 3, F, S, 8, 2), 132), (cfg(2, 3, F, S, 8, 3), 30), (cfg(2, 3, F, S, 8, 4), 20)]
     t += [(cfg(3, 1, H, S, 40), 13), (cfg(3, 1, F, S, 40), 13), (cfg(3, 2, H, S, 40), 93)]
     t += [(cfg(3, 3, H, S, 4, 2), 48), (cfg(3, 3, H, S, 4, 3), 20), (cfg(3, 3, H, S, 4, 4), 15)]
     t += [(cfg(4, 1, F, S, 40), 15), (cfg(5, 1, H, S, 40), 14), (cfg(4, 2, F, S, 40), 104)]
